@@ -33,8 +33,10 @@ static LD zero_scale(const Fn& fn, double x) {
    return 0.01L * std::max(a, b);
 }
 
-static std::string finding_key(const Fn& fn, double x) {
+static std::string finding_key(const Fn& fn, double x, double err) {
    const std::string n = fn.name;
+   // (the large-x cancellation of F1, F2, f_sferm loses up to 1.5e-3 over the sampled range - 2 000 000 cases; a larger error in that region is something else)
+   if ((n == "F1" || n == "F2" || n == "f_sferm") && !(err <= 0.05)) return "C01:" + n + ":accuracy";
    // predicates of the known findings (DESIGN 6, rows 8, 8b): outside them a failure has the generic key
    if (n == "Cl2" && std::fabs(x) >= 6.283185307179586) return "C01:Cl2:argument-reduction";   // the double nearest 2 pi and beyond
    if (n == "F1" && x > 1e6) return "C01:F1:large-x-cancellation";
@@ -83,7 +85,7 @@ static double observe(const Fn& fn, double x, const char* origin) {
    out->cell(std::string(fn.name) + "|" + rg + "|" + vh::decade(x), static_cast<double>(err), &w);
    if (!(err <= fn.tol)) {
       if (below) out->count(std::string("below-domain-exceed:") + fn.name);   // outside the stated domain: reported only
-      else out->fail(finding_key(fn, x), std::string(fn.name) + "(" + vh::num(x) + ") = " + vh::num(v) + ", reference " + vh::num(ref) + ", error " + vh::num(static_cast<double>(err)) + " > " + vh::num(fn.tol), w, static_cast<double>(err));
+      else out->fail(finding_key(fn, x, static_cast<double>(err)), std::string(fn.name) + "(" + vh::num(x) + ") = " + vh::num(v) + ", reference " + vh::num(ref) + ", error " + vh::num(static_cast<double>(err)) + " > " + vh::num(fn.tol), w, static_cast<double>(err));
    }
    return static_cast<double>(err);
 }
@@ -109,8 +111,8 @@ static void ladder(const Fn& fn, double b, vh::Rng& r) {
       J w; w.str("fn", fn.name).d("x", x).d("x_next", xp).d("f", v0).d("f_next", v1).d("excess_jump", static_cast<double>(ex)).d("boundary", b);
       out->cell(std::string(fn.name) + "|adjacent-doubles|" + vh::decade(b), static_cast<double>(std::max(ex, static_cast<LD>(0))), &w);
       if (!(ex <= 2 * fn.tol)) {
-         std::string key = finding_key(fn, x);
-         if (key.find(":accuracy") != std::string::npos) key = finding_key(fn, xp);   // a pair that straddles the predicate of a known finding belongs to it
+         std::string key = finding_key(fn, x, 0);
+         if (key.find(":accuracy") != std::string::npos) key = finding_key(fn, xp, 0);   // a pair that straddles the predicate of a known finding belongs to it
          if (key.find(":accuracy") != std::string::npos) key = std::string("C01:") + fn.name + ":discontinuity";
          out->fail(key, std::string(fn.name) + " jumps by " + vh::num(static_cast<double>(ex)) + " (relative, beyond the true variation) between adjacent doubles at " + vh::num(x), w);
       }
